@@ -477,23 +477,27 @@ def inv_passive(state, info, lossy, nonuniform, postselected, cutoff_covers):
     return tot
 
 
-def inv_fermionic_gaussian(state, rng, pure_expected, info):
+def inv_fermionic_gaussian(state, rng, pure_expected, info, extra=0.0):
+    """`extra`: rounding allowance of a thermal input, 1e-15 ||expm(2H)||_2 (the simulator
+    forms inv(1 + expm(2H)); same law as C17)."""
     d = state.d
     corr = np.asarray(state.correlation_matrix)
-    if float(np.abs(corr - corr.conj().T).max()) > 1e-10:
-        raise Violation("C08:FG:correlation_matrix:not-hermitian", info)
+    h = float(np.abs(corr - corr.conj().T).max())
+    if h > 1e-10 + extra:
+        raise Violation("C08:FG:correlation_matrix:not-hermitian",
+                        f"|C - C^dagger| = {h:.3e} {info}")
     w = np.linalg.eigvalsh((corr + corr.conj().T) / 2)
-    if w.min() < -1e-9 or w.max() > 1 + 1e-9:
+    if w.min() < -1e-9 - extra or w.max() > 1 + 1e-9 + extra:
         raise Violation("C08:FG:correlation_matrix:spectrum",
                         f"spectrum in [{w.min()!r}, {w.max()!r}] {info}")
     cov = np.asarray(state.covariance_matrix)
     if not np.isrealobj(cov):
         raise Violation("C08:FG:covariance_matrix:complex-dtype", f"dtype {cov.dtype}")
-    if float(np.abs(cov + cov.T).max()) > 1e-10:
+    if float(np.abs(cov + cov.T).max()) > 1e-10 + 4 * extra:
         raise Violation("C08:FG:covariance_matrix:not-antisymmetric",
                         f"|G + G^T| = {float(np.abs(cov + cov.T).max()):.3e} {info}")
     g2 = np.linalg.eigvalsh(cov @ cov.T)
-    if g2.max() > 1 + 1e-9:
+    if g2.max() > 1 + 1e-9 + 8 * extra:
         raise Violation("C08:FG:covariance_matrix:GG^T>1", f"max eig {g2.max()!r} {info}")
     if pure_expected and g2.min() < 1 - 1e-9:
         raise Violation("C08:FG:purity:unitary-on-pure",
@@ -501,9 +505,10 @@ def inv_fermionic_gaussian(state, rng, pure_expected, info):
                         f"{g2.min()!r} {info}")
     fp = check_prob_array("FG", "fock_probabilities", state.fock_probabilities,
                           lo=-1e-7, hi=1 + 1e-7)
-    if abs(fp.sum() - 1) > 2 ** d * 1e-7:
+    if abs(fp.sum() - 1) > 2 ** d * (1e-7 + extra):
         raise Violation("C08:FG:fock_probabilities:sum", f"sum = {fp.sum()!r} {info}")
-    try_validate("FG", state)
+    if extra < 1e-9:  # (validate() has fixed 1e-8 tolerances; ill-conditioned thermal inputs
+        try_validate("FG", state)  # are outside what it can be asked)
 
 
 def inv_fermionic_fock(state, rng, full_space, info):
@@ -591,6 +596,10 @@ def prop_sequence(desc, ctx):
     n0 = None
     if sim == "P":
         n0 = progs.prep_max_photons(desc["prep"], desc["d"])
+    fg_extra = 0.0
+    if sim == "FG" and desc["prep"]["kind"] == "parent":
+        hh = quadratic_hamiltonian(desc["d"], desc["prep"]["seed"], desc["prep"]["scale"])
+        fg_extra = 1e-15 * math.exp(2 * float(np.linalg.eigvalsh(hh).max()))
     for upto in range(0, len(steps) + 1):
         s = steps[upto - 1] if upto else None
         name = step_name(s) if s else "prep"
@@ -643,7 +652,7 @@ def prop_sequence(desc, ctx):
                 val = inv_passive(state, binfo, lossy, nonuniform, postselected,
                                   desc["cutoff"] > n0)
             elif sim == "FG":
-                inv_fermionic_gaussian(state, rng, pure_so_far, binfo)
+                inv_fermionic_gaussian(state, rng, pure_so_far, binfo, fg_extra)
                 val = None
             else:
                 val = inv_fermionic_fock(state, rng, desc["cutoff"] > desc["d"], binfo)
